@@ -101,6 +101,15 @@ Proof.
   apply path_eqb_eq in E. rewrite E in Hd. unfold in_dir in Hd. rewrite N.eqb_refl in Hd. discriminate.
 Qed.
 
+Lemma forallb_filter_dir' (l : list (path * option N)) (final : path) :
+  forallb (fun e => negb (path_eqb (fst e) final))
+          (filter (fun e => negb (in_dir (pdir final) (fst e))) l) = true.
+Proof.
+  apply forallb_forall. intros e Hin. apply filter_In in Hin as [_ Hd].
+  destruct (path_eqb (fst e) final) eqn:E; [|reflexivity].
+  apply path_eqb_eq in E. rewrite E in Hd. unfold in_dir in Hd. rewrite N.eqb_refl in Hd. discriminate.
+Qed.
+
 Lemma mfs_mrun t : forall m, mfs (mrun t m) = run t (mfs m).
 Proof. induction t as [|c t IH]; intro m; simpl; [reflexivity|]. now rewrite IH, mfs_mstep. Qed.
 
@@ -166,8 +175,8 @@ Proof.
   apply run_ok_cons. split; [|reflexivity].
   simpl. rewrite Hff. simpl. rewrite Hv. simpl. rewrite updN_same. simpl.
   rewrite N.eqb_refl. simpl.
-  unfold present_allb. simpl. unfold in_dir at 1. rewrite N.eqb_refl. rewrite !updP_same. simpl.
-  rewrite forallb_filter_dir. simpl. now rewrite Hd.
+  unfold settledb. simpl. unfold in_dir at 1. rewrite N.eqb_refl. rewrite !updP_same. simpl.
+  rewrite N.eqb_refl, forallb_filter_dir'. simpl. now rewrite Hd.
 Qed.
 
 (** [protocol_ok]: from any state reached by an accepted trace, each protocol
@@ -243,8 +252,8 @@ Proof.
     set (m2 := mrun (stage fd tmp ws) m_init) in *.
     set (s2 := run (stage fd tmp ws) fs_empty) in *. clearbody s2 m2.
     simpl in E. rewrite Hm in E. rewrite Hv in E. simpl in E.
-    unfold present_allb in E. simpl in E. rewrite Hd in E. simpl in E.
-    rewrite andb_false_r in E. simpl in E. discriminate.
+    unfold settledb in E. simpl in E. rewrite Hd in E. simpl in E.
+    rewrite updP_same in E. simpl in E. discriminate.
   - unfold acked. rewrite fold_left_app, ack_upd_stage. simpl. auto.
   - exists (durable_only (run (stage fd tmp ws ++ [Rename tmp final; Ack final]) fs_empty)).
     split; [apply crash_durable_only|]. simpl. exact Hnone.
